@@ -1,6 +1,6 @@
 (* Props/C10.v — time travel and history. *)
 From Coq Require Import List NArith Arith Bool.
-From SKV Require Import Base.Lex Txn.WriteSet Spec.Store Spec.Versioned Spec.Machine Lsm.CompactKey Lsm.CompactKeySpec Lsm.CompactKey_proofs.
+From SKV Require Import Base.Lex Txn.WriteSet Spec.Store Spec.Versioned Spec.Machine Lsm.CompactKey Lsm.CompactKeyOld Lsm.CompactKeySpec Lsm.CompactKey_proofs.
 Import ListNotations.
 
 (* a hard delete erases every earlier version for good; a replace erases them and stays *)
@@ -31,3 +31,47 @@ Example C10_barrier_kept_example :
     [ {| vseq := 3; vkind := CSet; vts := 3 |}; {| vseq := 2; vkind := CDel; vts := 2 |}; {| vseq := 1; vkind := CSet; vts := 1 |} ]%N
   = [ {| vseq := 3; vkind := CSet; vts := 3 |}; {| vseq := 2; vkind := CDel; vts := 2 |}; {| vseq := 1; vkind := CSet; vts := 1 |} ]%N.
 Proof. vm_compute. reflexivity. Qed.
+
+(* ---- barriers and the levels below the compaction ---------------------------------------- *)
+(* erases_deeper is the right notion: the history over the compaction's versions and any deeper
+   list is the history of the former alone when it holds, and both histories appended otherwise *)
+Theorem C10_erases_deeper_history : erases_deeper_history_stmt.
+Proof. exact erases_deeper_history. Qed.
+
+(* above the bottom level (versioning, unlimited retention) a compaction never loses the barrier
+   (hard delete / replace) of a reader that can exist *)
+Theorem C10_compact_barrier_kept : compact_key_barrier_kept_stmt.
+Proof. exact compact_key_barrier_kept. Qed.
+
+(* ... so the history such a reader sees over this level AND everything deeper is unchanged:
+   versions in deeper tables that a hard delete or replace of this level erased stay erased *)
+Theorem C10_compact_history_deeper : compact_key_history_deeper_stmt.
+Proof. exact compact_key_history_deeper. Qed.
+(* the same without any assumption on what is appended below *)
+Theorem C10_compact_history_deeper_any : compact_key_history_deeper_any_stmt.
+Proof. exact compact_key_history_deeper_any. Qed.
+
+(* finite retention: nothing erased comes back over this level and everything deeper, provided the
+   newest barrier the reader sees is inside the retention window ... *)
+Theorem C10_compact_history_deeper_retention : compact_key_history_deeper_retention_stmt.
+Proof. exact compact_key_history_deeper_retention. Qed.
+(* ... and the proviso is needed: a hard delete outside the window is dropped as superseded *)
+Theorem C10_compact_retention_barrier_lost : compact_key_retention_barrier_lost_stmt.
+Proof. exact compact_key_retention_barrier_lost. Qed.
+
+(* regression record: the decision before the repair (an older hard delete always stale, also above
+   the bottom level) violates C10_compact_barrier_kept and C10_compact_history_deeper *)
+Theorem C10_compact_old_decision_loses_barrier : compact_key_old_history_deeper_fails_stmt.
+Proof. exact compact_key_old_history_deeper_fails. Qed.
+
+(* the witness spelled out: level [Set@3; Del@2] above a deeper [Set@1], no snapshot, reader at 3.
+   Old decision: Del@2 dropped, Set@1 is back in the history; repaired decision: Del@2 stays *)
+Example C10_old_decision_resurrects :
+  let vs := [ {| vseq := 3; vkind := CSet; vts := 0 |}; {| vseq := 2; vkind := CDel; vts := 0 |} ]%N in
+  let deep := [ {| vseq := 1; vkind := CSet; vts := 0 |} ]%N in
+  history_deeper vs deep 3%N = [ {| vseq := 3; vkind := CSet; vts := 0 |} ]%N /\
+  history_deeper (compact_key_old false true 0 0 [] vs) deep 3%N
+    = [ {| vseq := 3; vkind := CSet; vts := 0 |}; {| vseq := 1; vkind := CSet; vts := 0 |} ]%N /\
+  history_deeper (compact_key false true 0 0 [] vs) deep 3%N = [ {| vseq := 3; vkind := CSet; vts := 0 |} ]%N /\
+  compact_key false true 0 0 [] vs = vs.
+Proof. vm_compute. repeat split; reflexivity. Qed.
